@@ -17,6 +17,8 @@ type Instance struct {
 	Run     func()
 	Check   func(r *vs.Result) []string
 	Outcome func() string
+	// Counters reports harness-level counts of this execution (summed over all executions in the evidence).
+	Counters func() map[string]int64
 }
 
 // Scenario is a closed system to explore.
@@ -70,6 +72,7 @@ type Stats struct {
 	ViolationCount int64            `json:"violation_count"`
 	WallS          float64          `json:"wall_s"`
 	MaxGoroutines  int              `json:"max_goroutines"`
+	Counters       map[string]int64 `json:"counters,omitempty"`
 }
 
 type frame struct {
@@ -125,6 +128,10 @@ func (d *dfs) altIndex(k, def int) int {
 }
 
 func (d *dfs) Pick(s *vs.Sched, en []vs.Trans) int {
+	if d.opt.Mode == "D0" {
+		// sequential driver: the canonical default schedule only, nothing recorded
+		return DefaultIndex(s, en)
+	}
 	i := d.depth
 	if i < len(d.stack) {
 		f := &d.stack[i]
@@ -227,9 +234,20 @@ func (d *dfs) next(floor int) bool {
 	return false
 }
 
+// signature identifies the class of a violation.  A message of the form
+// "<class> | <detail>" contributes only its class and the scenario family
+// (name up to the first '/'), so that one defect showing up in many scenarios
+// and inputs is one finding while a different defect is a different one.
 func signature(sc string, msgs []string) string {
 	if len(msgs) == 0 {
 		return sc
+	}
+	if i := strings.Index(msgs[0], " | "); i > 0 {
+		fam := sc
+		if j := strings.Index(sc, "/"); j > 0 {
+			fam = sc[:j]
+		}
+		return fam + " :: " + msgs[0][:i]
 	}
 	return sc + " :: " + msgs[0]
 }
@@ -258,6 +276,14 @@ func (d *dfs) runOne(trace bool) (*vs.Result, []string, string) {
 	out := ""
 	if inst.Outcome != nil {
 		out = inst.Outcome()
+	}
+	if inst.Counters != nil {
+		if d.st.Counters == nil {
+			d.st.Counters = map[string]int64{}
+		}
+		for k, v := range inst.Counters() {
+			d.st.Counters[k] += v
+		}
 	}
 	return r, msgs, out
 }
@@ -307,23 +333,35 @@ func (d *dfs) exploreFrom(floor int) bool {
 			}
 			if len(msgs) > 0 {
 				d.st.ViolationCount++
-				sig := signature(d.sc.Name, msgs)
-				known := false
-				for i := range d.st.Violations {
-					if d.st.Violations[i].Signature == sig {
-						known = true
-						// keep the example with the fewest deviations
-						dev := d.deviations()
-						if dev < d.st.Violations[i].Deviations {
-							d.st.Violations[i].Choices = d.choices()
-							d.st.Violations[i].Deviations = dev
-							d.st.Violations[i].Messages = msgs
-						}
-						break
+				// one finding per class of message
+				seenSig := map[string]bool{}
+				for mi := range msgs {
+					sig := signature(d.sc.Name, msgs[mi:mi+1])
+					if seenSig[sig] {
+						continue
 					}
-				}
-				if !known && len(d.st.Violations) < d.opt.MaxViol {
-					d.st.Violations = append(d.st.Violations, Violation{Scenario: d.sc.Name, Choices: d.choices(), Deviations: d.deviations(), Messages: msgs, Signature: sig})
+					seenSig[sig] = true
+					ordered := append([]string{msgs[mi]}, append(append([]string{}, msgs[:mi]...), msgs[mi+1:]...)...)
+					if len(ordered) > 4 {
+						ordered = ordered[:4]
+					}
+					known := false
+					for i := range d.st.Violations {
+						if d.st.Violations[i].Signature == sig {
+							known = true
+							// keep the example with the fewest deviations
+							dev := d.deviations()
+							if dev < d.st.Violations[i].Deviations {
+								d.st.Violations[i].Choices = d.choices()
+								d.st.Violations[i].Deviations = dev
+								d.st.Violations[i].Messages = ordered
+							}
+							break
+						}
+					}
+					if !known && len(d.st.Violations) < d.opt.MaxViol {
+						d.st.Violations = append(d.st.Violations, Violation{Scenario: d.sc.Name, Choices: d.choices(), Deviations: d.deviations(), Messages: ordered, Signature: sig})
+					}
 				}
 				if d.opt.StopFirst {
 					d.st.CapHit = "stopped at first violation"
@@ -469,6 +507,11 @@ func (l *loader) Pick(s *vs.Sched, en []vs.Trans) int {
 // Replay re-executes one recorded choice list and returns messages + trace.
 func Replay(sc Scenario, choices []int) (msgs []string, trace []string, res *vs.Result) {
 	st := &Stats{Outcomes: map[string]int64{}}
+	if sc.Mode == "D0" {
+		d := &dfs{sc: sc, opt: Options{Mode: "D0"}, st: st}
+		r, m, _ := d.runOne(false)
+		return m, nil, r
+	}
 	d := &dfs{sc: sc, opt: Options{Mode: "replay"}, st: st, replayOnly: true}
 	ld := &loader{choices: choices}
 	inst := sc.New()
